@@ -711,7 +711,9 @@ def install(extra_np=(), extra_float=(), extra_int=(), extra_maxmin=()):
     import pulser.sequence.sequence as SQ
     import pulser.waveforms as wf
 
-    assert pulser.__file__.startswith("/repo/"), pulser.__file__
+    from .core import REPO_ROOT
+
+    assert pulser.__file__.startswith(REPO_ROOT + "/"), pulser.__file__
     for m in (aa, wf, pl, bc, dmm, eom, S, SQ, BR, SM, pmm) + tuple(extra_np):
         m.np = FACADE
     for m in (wf, pl, SQ, BR, SM, eom) + tuple(extra_float):
@@ -733,5 +735,7 @@ def install(extra_np=(), extra_float=(), extra_int=(), extra_maxmin=()):
 def assert_repo():
     import pulser
 
-    if not pulser.__file__.startswith("/repo/"):
-        raise SystemExit("HARNESS-ERROR pulser not imported from /repo: %s" % pulser.__file__)
+    from .core import REPO_ROOT
+
+    if not pulser.__file__.startswith(REPO_ROOT + "/"):
+        raise SystemExit("HARNESS-ERROR pulser not imported from %s: %s" % (REPO_ROOT, pulser.__file__))
